@@ -214,6 +214,7 @@ def refused_inputs(r, genuine, peer, mic_now, plain=None):
     out = {}
     out["random"] = bytes(r.getrandbits(8) for _ in range(r.randrange(1, 40)))
     out["empty_tag"] = genuine[:1]
+    out["nothing"] = b""                               # next_event with nothing received
     out["truncated"] = genuine[:max(1, len(genuine) - r.randrange(1, min(14, len(genuine))))]
     x = bytearray(genuine)
     x[r.randrange(len(x))] ^= 1 << r.randrange(8)
